@@ -18,4 +18,7 @@ def untranslated : List String := []
 /-- names of the translated definitions -/
 def translated : List String := ["GetHashLock(secret,timestamp)", "GetID(sender,to,amount,hashLock,read_amount_Sort__String)"]
 
+/-- every rejecting guard of the translated functions, in source order -/
+def guards : List String := []
+
 end Irismod.Gen.PureHtlcId
